@@ -660,15 +660,25 @@ impl<F: Fam> Ctx<F> {
                     }
                     tokens.push(Token::MapEnd);
                     serde_test::assert_ser_tokens(m, &tokens);
-                    // all keys are equal: what comes back holds one pair (or none), which equals the
-                    // original exactly when the original holds at most one
-                    let mut expect = ZMap::with_hasher(vh);
-                    if n > 0 {
-                        expect.insert(ZK::new(), ZV::new());
-                    }
-                    serde_test::assert_de_tokens(&expect, &tokens);
-                    if n <= 1 && (expect != *m || *m != expect) {
-                        return Err("zero-sized map: the deserialised map is != the original".to_string());
+                    // all keys are equal. A map with at most one pair is an ordinary map: what comes
+                    // back must equal it. With more (stored through the raw-entry API) the output
+                    // repeats a key, and what deserialising THAT gives is not part of the statement:
+                    // it only has to work (no panic, no error) and give 1..=n pairs
+                    if n <= 1 {
+                        let mut expect = ZMap::with_hasher(vh);
+                        if n > 0 {
+                            expect.insert(ZK::new(), ZV::new());
+                        }
+                        serde_test::assert_de_tokens(&expect, &tokens);
+                        if expect != *m || *m != expect {
+                            return Err("zero-sized map: the deserialised map is != the original".to_string());
+                        }
+                    } else {
+                        let de = serde::de::value::MapDeserializer::<_, serde::de::value::Error>::new((0..n).map(|_| ((), ())));
+                        let back = ZMap::deserialize(de).map_err(|e| format!("deserialising {} unit pairs failed: {}", n, e))?;
+                        if back.len() == 0 || back.len() > n {
+                            return Err(format!("zero-sized map: deserialising {} unit pairs gave {} pairs", n, back.len()));
+                        }
                     }
                     let s = &z.set;
                     let n = s.len();
@@ -679,14 +689,16 @@ impl<F: Fam> Ctx<F> {
                     }
                     tokens.push(Token::SeqEnd);
                     serde_test::assert_ser_tokens(s, &tokens);
-                    let mut expect = ZSet::with_hasher(vh);
-                    if n > 0 {
-                        expect.insert(ZK::new());
+                    if n <= 1 {
+                        let mut expect = ZSet::with_hasher(vh);
+                        if n > 0 {
+                            expect.insert(ZK::new());
+                        }
+                        serde_test::assert_de_tokens(&expect, &tokens);
                     }
-                    serde_test::assert_de_tokens(&expect, &tokens);
                     let json = serde_json::to_string(s).map_err(|e| format!("serialisation failed: {}", e))?;
                     let back: ZSet = serde_json::from_str(&json).map_err(|e| format!("deserialisation failed: {}", e))?;
-                    if back.len() != n.min(1) || (n <= 1 && (back != *s || *s != back)) {
+                    if (n == 0) != (back.len() == 0) || back.len() > n || (n <= 1 && (back != *s || *s != back)) {
                         return Err(format!("zero-sized set: JSON round trip of {} element(s) gave {}", n, back.len()));
                     }
                     if in_place {
@@ -702,7 +714,7 @@ impl<F: Fam> Ctx<F> {
                     Err(msg) => fail!(self, [C16], "serde-mismatch", "{}", msg),
                     Ok(n) => {
                         if in_place {
-                            if n != k_in_place.min(1) {
+                            if (n == 0) != (k_in_place == 0) || n > k_in_place {
                                 fail!(self, [C16], "serde-in-place", "zero-sized set: deserialize_in_place of {} element(s) left {} (previously {})", k_in_place, n, sc);
                             }
                             self.z.set_count = n;
